@@ -65,7 +65,7 @@ theorem DivG.mono {C : Code} {s : VM} {n m : Nat} (hle : m ≤ n) (h : DivG C s 
 
 theorem DivG.after_add {C : Code} {s s1 : VM} {k n : Nat} (hk : execN C k s = some s1) (h : DivG C s1 n) : DivG C s (k + n) := by
   rcases h with h | h
-  · exact .inl (SimF.Fails.after k hk h)
+  · exact .inl (SimF.Ovf.after k hk h)
   · exact .inr (h.after_add hk)
 
 theorem DivG.after {C : Code} {s s1 : VM} {k n : Nat} (hk : execN C k s = some s1) (h : DivG C s1 n) : DivG C s n :=
